@@ -30,6 +30,8 @@ type parserOpts struct {
 	Opaque            func(*ssa.Function) bool
 	SeqCalls          func(string) bool
 	Prune             func(*BoolVal) bool
+	TraceCalls        func(*ssa.Function) bool
+	MaxPaths          int
 }
 
 func runParser(p *Program, fn *ssa.Function, o parserOpts) *parserRun {
@@ -40,7 +42,11 @@ func runParser(p *Program, fn *ssa.Function, o parserOpts) *parserRun {
 	e.Opaque = o.Opaque
 	e.SeqCalls = o.SeqCalls
 	e.Prune = o.Prune
+	e.TraceCalls = o.TraceCalls
 	e.MaxPaths = 20000
+	if o.MaxPaths > 0 {
+		e.MaxPaths = o.MaxPaths
+	}
 	st := newState()
 	s := &Stream{Name: "in"}
 	st.pos[s] = formInt(0)
